@@ -2061,3 +2061,18 @@ package mcp
 //@   callee h: modifies *
 //@   requires c != nil && req != nil
 //@   modifies *
+
+// sseClientConn.Write (legacy HTTP+SSE client, C13/C04): the POST that carries a message is bound to the caller's
+// context - the timeout of a keep-alive ping (or a caller's cancellation) aborts a POST the peer accepts but never
+// answers, so an unanswered ping is counted as a miss instead of wedging the keep-alive loop; the request sent is
+// the one built around that context, and the body of an answered POST is closed.
+//@ func (*sseClientConn).Write [C13, C04]
+//@   track http.NewRequestWithContext as mkReq
+//@   track Do as send
+//@   track Close as closeBody
+//@   requires c != nil && c.client != nil && c.msgEndpoint != nil
+//@   assume forall r *http.Response :: {r.Body} r != nil ==> r.Body != nil   // net/http: the body of a client response is never nil
+//@   modifies *
+//@   ensures @the-post-is-bound-to-the-callers-context calls(mkReq) <= 1 && (calls(mkReq) == 1 ==> callArg(mkReq, 1, 0) == ctx && callArg(mkReq, 1, 1) == "POST")
+//@   ensures @the-request-sent-is-the-one-built calls(send) <= 1 && (calls(send) == 1 ==> calls(mkReq) == 1 && callArg(send, 1, 1) == callResult(mkReq, 1, 0))
+//@   ensures @an-answered-post-has-its-body-closed calls(send) == 1 && callResult(send, 1, 1) == nil ==> calls(closeBody) == 1
